@@ -966,6 +966,34 @@ struct Search
     });
   }
 
+  /// FEAT's own operator== as an observer: true exactly if both containers have the same canonical state; false after one
+  /// stored value of the result got another value
+  bool check_operator_eq(Obj& X, const std::string& kx, Obj& Y, const std::string& opn)
+  {
+    bool ok = true;
+    const bool same = okey(Y) == kx;
+    visit(X, [&](auto& x, auto NX)
+    {
+      constexpr int nx = decltype(NX)::value;
+      auto& y = static_cast<ObjT<nx>&>(Y);
+      const bool eq = (y.mat == x.mat);
+      if(eq != same) { fail_once(opn + ": operator== disagrees with the comparison of the raw states", std::string("operator== says ") + (eq ? "equal" : "different")); ok = false; return; }
+      if(!same) return;
+      // change one value of the result (if it does not share its data with the source) and compare again
+      auto& e = y.mat._elements;
+      if(e.empty() || y.mat._elements_size[0] == 0 || e[0] == x.mat._elements[0]) return;
+      Index pos = 0;
+      if constexpr(NodeT<nx>::fmt == F_BAND) { const Raw ry = raw_of(Y); const Index m = ry.si[1], n = ry.si[2]; bool found = false; for(size_t b = 0; b < ry.ix[0].size() && !found; ++b) for(Index i = 0; i < m && !found; ++i) if(band_valid(m, n, ry.ix[0][b], i)) { pos = Index(b) * m + i; found = true; } if(!found) return; }
+      const auto old = e[0][pos];
+      e[0][pos] = old + typename std::remove_reference<decltype(old)>::type(1);
+      const bool eq2 = (y.mat == x.mat);
+      e[0][pos] = old;
+      if(eq2) { fail_once(opn + ": operator== still true after a stored value was changed", ""); ok = false; }
+    });
+    c.count("operator_eq_observations");
+    return ok;
+  }
+
   /// MemoryPool bookkeeping of the result: every array registered with the rounded byte size and exactly one reference
   /// per holder (the result itself plus the source if it shares the array)
   bool check_pool(const Raw& ry, const Raw* rx, int node, const std::string& opn)
@@ -1176,6 +1204,26 @@ struct Search
         const Raw ry = raw_of(*Y);
         if(o.k == O_CONV && okey(*Y) != kx) { fail_once(std::string("x.convert(x) ") + node_name[ns] + ": the matrix is not preserved", "now " + lay_str(actual(ry, ns))); continue; }
         if(check_state(*Y, ry, M2, opn, M, defined)) check_pool(ry, nullptr, Y->node, opn);
+      }
+    }
+    // ---- convert_reverse: the values of a CSR matrix are written back into a matrix of the same layout (set_line_reverse)
+    if(node_fmt[ns] == F_CSR)
+    {
+      Model Mt; ObjP X = replay(hist, Mt);
+      ObjP T = make_relative(*X, R_LAYOUT);
+      if(T)
+      {
+        write_values(*T, [](Index i) { return 400.0 + double(i); });
+        visit(*X, [&](auto& x, auto NX)
+        {
+          constexpr int nx = decltype(NX)::value;
+          if constexpr(NodeT<nx>::fmt == F_CSR) x.mat.convert_reverse(static_cast<ObjT<nx>&>(*T).mat);
+        });
+        c.count("transitions"); c.count("relative_scenarios"); c.count("convert_reverse_checks");
+        const Raw rt = raw_of(*T);
+        const std::string opn = std::string("convert_reverse ") + node_name[ns] + " into a Layout clone";
+        check_state(*T, rt, M, opn, M, true);
+        if(okey(*X) != kx) fail_once(opn + ": source matrix modified", "");
       }
     }
     // ---- copy(x, full) into existing targets of the same layout
@@ -1535,6 +1583,7 @@ struct Search
             if(key_of(actual(rx2, X->node), X->node) != kx) { fail_once(opn + ": source matrix modified" + qual(M), ""); ok = false; }
             if(ok) ok = check_aliasing(*X, rx, *Y, ry, expected_sharing(o, M.node), opn, defined);
           }
+          if(ok && !mut && defined && Y->node == X->node && M2.nnz() > 0 && M.nnz() > 0) ok = check_operator_eq(*X, kx, *Y, opn);
           if(!ok) { c.outcome("violation"); continue; }
           // differential oracles
           if(o.k == O_TRANS && !mut)
@@ -1549,6 +1598,23 @@ struct Search
             const Index np = M.m / Index(M.bh()), nq = M.n / Index(M.bw());
             Op o2{O_PERM, perm_index(np, inverse_of(perms(np)[size_t(o.a)])), perm_index(nq, inverse_of(perms(nq)[size_t(o.b)]))};
             const std::string ky = key_of(actual(ry, Y->node), Y->node);
+            {
+              // Permutation::concat: a permutation composed with its (harness-computed) inverse is the identity, both ways
+              for(int side = 0; side < 2; ++side)
+              {
+                const Index k = side ? nq : np;
+                const std::vector<Index>& pv = perms(k)[size_t(side ? o.b : o.a)];
+                const std::vector<Index> iv = inverse_of(pv);
+                Adjacency::Permutation P1(k, Adjacency::Permutation::ConstrType::perm, pv.data()), P2(k, Adjacency::Permutation::ConstrType::perm, iv.data());
+                P1.concat(P2);
+                bool id = true; for(Index i = 0; i < k; ++i) if(P1.get_perm_pos()[i] != i) id = false;
+                Adjacency::Permutation P3(k, Adjacency::Permutation::ConstrType::perm, iv.data()), P4(k, Adjacency::Permutation::ConstrType::perm, pv.data());
+                P3.concat(P4);
+                for(Index i = 0; i < k; ++i) if(P3.get_perm_pos()[i] != i) id = false;
+                if(!id) fail_once("Permutation::concat of a permutation with its inverse is not the identity", "");
+              }
+              c.count("permutation_concat_checks");
+            }
             ObjP Z = apply_op(o2, Y, M2);   // in place: Y is consumed
             c.count("transitions");
             const bool back = key_of(actual(raw_of(*Z), Z->node), Z->node) == kx;
